@@ -1486,7 +1486,8 @@ func (gqm *GroupQuotaManager) deleteQuotaNoLock(quota *v1alpha1.ElasticQuota) er
 	gqm.updateResourceKeyNoLock()
 
 	// update request
-	deltaReq := quotav1.Subtract(v1.ResourceList{}, quotaInfo.CalculateInfo.Request)
+	// the parent chain only ever received this quota's max-limited request, so that is what leaves with it.
+	deltaReq := quotav1.Subtract(v1.ResourceList{}, quotaInfo.getLimitRequestNoLock())
 	deltaNonPreemptibleRequest := quotav1.Subtract(v1.ResourceList{}, quotaInfo.CalculateInfo.NonPreemptibleRequest)
 	if !quotav1.IsZero(deltaReq) || !quotav1.IsZero(deltaNonPreemptibleRequest) {
 		gqm.updateGroupDeltaRequestNoLock(quotaInfo.ParentName, deltaReq, deltaNonPreemptibleRequest, -1)
